@@ -85,7 +85,8 @@ pub fn run_case(case: &Case, id: usize, ops: &mut String, out: &mut String, stat
             Err(_) => { dead = true; panicked = true; "flag panic" }
         };
         *stats.entry(s.to_string()).or_insert(0) += 1;
-        writeln!(out, "{}", s).unwrap();
+        // the handler receives the solver's own abscissa and state by mutable reference: what it leaves there is output too
+        if panicked { writeln!(out, "{}", s).unwrap(); } else { writeln!(out, "{} x={} y={}", s, hx(xx), hxs(&yy)).unwrap(); }
     }
     writeln!(ops, "end").unwrap();
     let (t, y, te, ye, segs) = probe.take().unwrap().into_payload();
